@@ -408,6 +408,9 @@ class RandomQueries:
         if r.random() < (0.8 if inner['order'] and inner['limit'] < 0 else 0.5) and not q['group'] \
                 and not any(t['e'].get('k') == 'agg' for t in q['targets']):
             keys = r.sample(names, min(len(names), r.randint(1, 2)))
+            unselected = [n for n in names if n not in q.get('_names', names)]
+            if unselected and r.random() < 0.6:          # a key that is a column of the subquery but not selected
+                keys = [r.choice(unselected)] + keys[:r.randint(0, 1)]
             q['order'] = [{'r': {'k': 'expr', 'e': col(n)}, 'desc': r.random() < 0.5} for n in keys]
         if r.random() < 0.3:
             n = r.choice(names)
